@@ -377,7 +377,7 @@ def partial_link_runs(chk):
     from harness import engine_common as E
     from schemathesis.engine.phases import PhaseName
     from schemathesis.specs.openapi.checks import ensure_resource_availability
-    for full in (False, True):
+    for full in (False, True, "query-generated"):
         app = Flask("c18-link")
 
         @app.route("/users", methods=["POST"])
@@ -385,23 +385,27 @@ def partial_link_runs(chk):
             return jsonify({"id": 7, "item": 3}), 201
 
         @app.route("/users/<uid>/items/<iid>", methods=["GET"])
-        def rd(uid, iid):
+        def rd(uid, iid, full=full):
+            if full == "query-generated":       # the created resource exists; a malformed filter is a client error
+                from flask import request
+                return (jsonify({}), 400) if "filter" in request.args else (jsonify({}), 200)
             return jsonify({}), 404
 
         link_params = {"userId": "$response.body#/id"}
         if full:
             link_params["itemId"] = "$response.body#/item"
+        extra = [{"name": "filter", "in": "query", "schema": {"type": "object"}}] if full == "query-generated" else []
         raw = {"openapi": "3.0.2", "info": {"title": "t", "version": "1"}, "paths": {
             "/users": {"post": {"operationId": "mk", "responses": {"201": {"description": "ok", "links": {
                 "L": {"operationId": "rd", "parameters": link_params}}}}}},
             "/users/{userId}/items/{itemId}": {"get": {"operationId": "rd", "parameters": [
                 {"name": "userId", "in": "path", "required": True, "schema": {"type": "integer"}},
-                {"name": "itemId", "in": "path", "required": True, "schema": {"type": "integer"}}],
+                {"name": "itemId", "in": "path", "required": True, "schema": {"type": "integer"}}] + extra,
                 "responses": {"200": {"description": "ok"}, "404": {"description": "no"}}}}}}
         with E.Server(app) as srv:
             schema = E.load_schema(srv.url, raw=raw)
-            cfg = E.engine_config(phases=[PhaseName.STATEFUL_TESTING], max_examples=8, stateful_step_count=3, seed=chk.seed + 3,
-                                  checks=[ensure_resource_availability])
+            cfg = E.engine_config(phases=[PhaseName.STATEFUL_TESTING], max_examples=8 if full != "query-generated" else 25,
+                                  stateful_step_count=3, seed=chk.seed + 3, checks=[ensure_resource_availability])
             evs = E.run_engine(schema, cfg)
         reported = []
         for e in evs:
@@ -413,6 +417,15 @@ def partial_link_runs(chk):
         chk.case("era:partial-link:engine-run", key=[full], nontrivial=True,
                  sample={"link_fills_all_parameters": full, "reported": sorted(set(reported))})
         chk.feature(f"era:partial-link:full={full}:reported={bool(reported)}")
+        if full == "query-generated":
+            # every path parameter comes from the link, the query parameter is generated (an empty object is sent as
+            # `filter=`): a 4xx for it says nothing about the created resource
+            if reported:
+                chk.violation("C18:ensure_resource_availability:reported-although-a-parameter-did-not-come-from-the-link",
+                              f"the link fills both path parameters, `filter` is generated, the API answers 400 only when it is "
+                              f"present (200 otherwise): reported {sorted(set(reported))}",
+                              {"document": raw, "link_fills_all_parameters": "path parameters only; query generated"})
+            continue
         if not full and reported:
             chk.violation("C18:ensure_resource_availability:reported-although-a-parameter-did-not-come-from-the-link",
                           f"the link fills userId only, itemId is generated, the API answers 404: reported {sorted(set(reported))}",
